@@ -18,6 +18,7 @@ type LightFamily struct {
 	Nmax    int
 	UndoBud int
 	Prop    string // C07 | C08 | C11: which oracle clauses are reported
+	ArgRev  bool   // block targets and their hashes are handed to Stump.Update / Proof.Update / Proof.Undo in descending order
 	RemMode string // "" = every subset of the additions (ascending index lists); "desc" = the same in descending order; "all"; "none"
 	Collect string // when set, violations of this property are collected instead of Prop's
 	// Base > 0: the client starts from bare roots of an accumulator that already holds Base
@@ -145,6 +146,15 @@ func (f *LightFamily) run(x *Exec, hist []Op) (*lightClient, *lightModel, bool, 
 			fr := lightFrame{prev: md.s.Clone(), prevDump: c.dump(), op: op, proof: proof, dh: dh,
 				prevStump: u.Stump{Roots: append([]Hash(nil), c.stump.Roots...), NumLeaves: c.stump.NumLeaves},
 				cachedPre: append([]bool(nil), md.cached...)}
+			if f.ArgRev && len(dh) > 1 {
+				n := len(dh)
+				rh, rt := make([]Hash, n), make([]uint64, n)
+				for j := range dh {
+					rh[n-1-j], rt[n-1-j] = dh[j], proof.Targets[j]
+				}
+				dh, proof = rh, u.Proof{Targets: rt, Proof: proof.Proof}
+				fr.proof, fr.dh = proof, dh
+			}
 			ud, err := x.StumpUpdate(&c.stump, dh, adds, proof)
 			if err != nil {
 				x.Report(f.Prop, "Stump.Update rejects an honest block", err.Error())
@@ -522,6 +532,8 @@ func init() {
 		nd := pick(c, 5, 6)
 		c.Cov.Bound["descending_remember_lists.Nmax"] = nd
 		BFS(c, &LightFamily{Nmax: nd, Prop: "C07", RemMode: "desc"}, 0)
+		c.Cov.Bound["descending_targets.Nmax"] = nd
+		BFS(c, &LightFamily{Nmax: nd, Prop: "C07", ArgRev: true}, 0)
 		lightBases(c, "C07", pick(c, 3, 4), 0)
 		lightMedium(c, "C07", false)
 	}
@@ -530,6 +542,8 @@ func init() {
 		c.Cov.Rule = "explicit-state BFS over stump histories (every deletion subset x every addition count, N<=Nmax); for every transition the UpdateData returned by Stump.Update is compared field by field with the reference model's derived oracles (empty roots consumed by the binary carry in order of destruction and post-block coordinates; every pre-block path position of the deleted targets with its post-deletion subtree hash; every added leaf and both children of every node created by the additions); non-trivial = distinct stump state with a dead leaf"
 		c.Cov.Bound["Nmax"] = fam.Nmax
 		BFS(c, fam, 0)
+		c.Cov.Bound["descending_targets.Nmax"] = 6
+		BFS(c, &LightFamily{Nmax: 6, Prop: "C11", RemMode: "none", ArgRev: true}, 0)
 		lightBases(c, "C11", pick(c, 4, 5), 0)
 		lightMedium(c, "C11", false)
 	}
@@ -547,6 +561,8 @@ func init() {
 		n3 := pick(c, 4, 5)
 		c.Cov.Bound["three_undos.Nmax"] = n3
 		BFS(c, &LightFamily{Nmax: n3, Prop: "C08", UndoBud: 3}, 0)
+		c.Cov.Bound["descending_targets.Nmax"] = n3
+		BFS(c, &LightFamily{Nmax: n3, Prop: "C08", UndoBud: 2, ArgRev: true}, 0)
 		lightBases(c, "C08", pick(c, 3, 3), 1)
 		lightMedium(c, "C08", true)
 	}
